@@ -270,14 +270,9 @@ fn l2_case(rng: &mut Rng, malformed: bool) -> String {
     let prelude = rng.chance(1, 2);
     // --null-data: NUL-terminated lines, which may contain `\n` (where `^` / `$` still match and `.` does not)
     let nul = !crlf && rng.chance(1, 6);
-    // Under --null-data a pattern with haystack anchors sends the SEARCHER down its fast path, where the anchors see
-    // the buffer instead of the line (`printf 'ab\0cd\0ab' | rg -a --null-data -c 'b\z'` counts 1): which lines
-    // are reported is C01's business (witness handed to its check), so this stream uses the line anchors there.
-    let pat = if nul {
-        pat.replace("\\A", "^").replace("\\z", "$").replace("(?-m:^)", "^").replace("(?-m:$)", "$")
-    } else {
-        pat
-    };
+    // (until a2e984b a pattern with haystack anchors sent the searcher down its fast path under --null-data, where the
+    // anchors saw the buffer instead of the line: `printf 'ab\0cd\0ab' | rg -a --null-data -c 'b\z'` counted 1.
+    // Found by this stream, repaired; the anchors are generated for NUL-terminated lines too.)
     let input = if nul {
         let mut v: Vec<u8> = input.iter().map(|&b| if b == b'\n' { 0 } else { b }).collect();
         for _ in 0..rng.below(3) {
@@ -715,7 +710,7 @@ fn run_l3(case: &str, parts: &[&str], drv: &mut Driver, rep: &mut Report) {
         return;
     }
     let out = printer.into_inner().into_inner();
-    l3_model_check(case, &matcher, &tmpl, &input, crlf, ml_eff, &blocks_seen, &out, impl_panicked, drv, rep);
+    l3_model_check(case, &matcher, &tmpl, &input, crlf, ml_eff, &blocks_seen, &out, impl_panicked, None, drv, rep);
     // class predicate of `multiline-match-beyond-block` (since 2e6bd1f: such a match is left unreplaced so that its
     // expansion cannot copy bytes from beyond the reported lines): in the haystack the printer re-searches (cut
     // MAX_LOOK_AHEAD bytes behind the block) a match starts inside a reported block and ends beyond it
@@ -733,6 +728,10 @@ fn run_l3(case: &str, parts: &[&str], drv: &mut Driver, rep: &mut Report) {
     // that `replace_all` really cuts the haystack MAX_LOOK_AHEAD bytes after the block
     if ml_eff && fnv(case.as_bytes()) % 4 == 0 {
         l3_shadow_padded(case, &matcher, &tmpl, &input, crlf, pre, drv, rep);
+    }
+    // option variants (model comparison only): the same search printed with a path, --column, -b, -o or --vimgrep
+    if ml_eff && !impl_panicked {
+        l3_option_variant(case, &matcher, &tmpl, &input, crlf, pre, drv, rep);
     }
     if impl_panicked {
         rep.branch("l3:printer-panic");
@@ -951,6 +950,7 @@ fn l3_model_check(
     blocks: &[L3Block],
     out: &[u8],
     impl_panicked: bool,
+    std: Option<&str>,
     drv: &mut Driver,
     rep: &mut Report,
 ) {
@@ -994,7 +994,8 @@ fn l3_model_check(
         }
         let (table, _sane) = caps_sx(matcher, &input[..cut], b.rs);
         let reply = drv.ask(&format!(
-            "c19.mlprint {} {} {} {} {} {} {} {} {}",
+            "{} {} {} {} {} {} {} {} {} {}{}",
+            if std.is_some() { "c19.mlprintc" } else { "c19.mlprint" },
             lt,
             hex(input),
             b.rs,
@@ -1003,7 +1004,8 @@ fn l3_model_check(
             b.ln.map_or("~".to_string(), |n| n.to_string()),
             hex(tmpl),
             names_sx(&names),
-            table
+            table,
+            std.map_or(String::new(), |s| format!(" {}", s))
         ));
         if reply == "panic" {
             model_panicked = true;
@@ -1162,7 +1164,69 @@ fn l3_shadow_padded(
     let out = printer.into_inner().into_inner();
     rep.branch("l3:shadow-padded");
     // reported under the original case line: replaying it runs this shadow search again
-    l3_model_check(case, matcher, tmpl, &padded, crlf, true, &blocks, &out, panicked, drv, rep);
+    l3_model_check(case, matcher, tmpl, &padded, crlf, true, &blocks, &out, panicked, None, drv, rep);
+}
+
+/// The l3 search repeated under one of six printer configurations the spec check does not use (the replaced block
+/// printed with a path, `--column`, `-b`, `-o`, `--vimgrep`), printer vs `ReplaceMulti.printReplacedBlock` only.
+#[allow(clippy::too_many_arguments)]
+fn l3_option_variant(
+    case: &str,
+    matcher: &grep_regex::RegexMatcher,
+    tmpl: &[u8],
+    input: &[u8],
+    crlf: bool,
+    pre: bool,
+    drv: &mut Driver,
+    rep: &mut Report,
+) {
+    // (path, column, byte offset, only matching, per match)
+    let (path, col, boff, only, vim) = match (fnv(case.as_bytes()) / 4) % 6 {
+        0 => (false, true, false, false, false),
+        1 => (false, false, true, false, false),
+        2 => (true, true, true, false, false),
+        3 => (false, false, false, true, false),
+        4 => (false, true, false, false, true),
+        _ => (true, false, true, true, false),
+    };
+    let mut b = StandardBuilder::new();
+    b.replacement(Some(tmpl.to_vec())).column(col).byte_offset(boff).only_matching(only).per_match(vim).per_match_one_line(vim).path(path);
+    let mut printer = b.build_no_color(vec![]);
+    let mut searcher = SearcherBuilder::new()
+        .multi_line(true)
+        .line_number(pre)
+        .line_terminator(if crlf { grep_matcher::LineTerminator::crlf() } else { grep_matcher::LineTerminator::byte(b'\n') })
+        .build();
+    let mut blocks: Vec<L3Block> = vec![];
+    let searched = std::panic::catch_unwind(std::panic::AssertUnwindSafe(|| {
+        if path {
+            let tee = L3Tee { inner: printer.sink_with_path(matcher, "p/q"), blocks: &mut blocks };
+            searcher.search_slice(matcher, input, tee)
+        } else {
+            let tee = L3Tee { inner: printer.sink(matcher), blocks: &mut blocks };
+            searcher.search_slice(matcher, input, tee)
+        }
+    }));
+    let panicked = searched.is_err();
+    if let Ok(Err(_)) = searched {
+        return;
+    }
+    let out = printer.into_inner().into_inner();
+    rep.branch(match (only, vim) {
+        (true, _) => "l3:variant-only-matching",
+        (_, true) => "l3:variant-vimgrep",
+        _ => "l3:variant-coordinates",
+    });
+    let std = format!(
+        "(std (stats 0) (heading 0) (path {}) (only {}) (pm {}) (pm1 {}) (max ~) (col {}) (boff {}) (ssearch ~) (sctx 2d2d) (sfm 3a) (sfc 2d) (pterm ~))",
+        if path { hex(b"p/q") } else { "~".to_string() },
+        only as u8,
+        vim as u8,
+        vim as u8,
+        col as u8,
+        boff as u8
+    );
+    l3_model_check(case, matcher, tmpl, input, crlf, true, &blocks, &out, panicked, Some(&std), drv, rep);
 }
 
 // ---------------------------------------------------------------- L2c: context lines, inverted searches, passthru
